@@ -7,32 +7,41 @@
 (* Invariants: at the end of every history M equals the original array (C18 "leaves the model's      *)
 (* parameter values as they were"); every evaluation tagged +kh happened with exactly the named      *)
 (* parameter shifted by k*h and all others original.                                                  *)
+(* Calls are made in sequence on ONE model: between two calls the user may re-parameterise the model *)
+(* (Model.set_params).  Each entry-point call (py_get_jacobian / py_get_sensitivity_to_parameter)    *)
+(* builds a fresh SensitivityAnalysis, whose constructor snapshots the parameters current at THAT    *)
+(* moment (Design = "fresh").  The deviation Design = "cached" (the analysis object, and with it the  *)
+(* snapshot, survives from the first call) must be refuted: it evaluates at, and writes back, the    *)
+(* parameters of the first call.                                                                      *)
 EXTENDS Rat, TLC
 
-CONSTANTS NPar, NState, Method      \* Method: 1 fourth-order, 2 central, 3 forward, 4 backward
+CONSTANTS NPar, NState, Method,     \* Method: 1 fourth-order, 2 central, 3 forward, 4 backward
+          MaxCalls, Design          \* calls in sequence on one model; "fresh" | "cached" snapshot
 
-VARIABLES M, pd, orig, target, i, pc, log
-vars == <<M, pd, orig, target, i, pc, log>>
+VARIABLES M, pd, orig, target, i, pc, log,
+          user,     \* the parameters the user last gave the model: what every call must differentiate at and leave behind
+          calls
+vars == <<M, pd, orig, target, i, pc, log, user, calls>>
 
 H == R(1, 4)
 PG == {R(1, 10), I(1), I(2)}
 Shift(f, q, k) == [f EXCEPT ![q] = RAdd(@, RMul(I(k), H))]
 
 Init == /\ orig \in [1..NPar -> PG] /\ target \in 1..NPar
-        /\ M = orig /\ pd = orig /\ i = 0 /\ pc = "f0" /\ log = << >>
+        /\ M = orig /\ pd = orig /\ i = 0 /\ pc = "f0" /\ log = << >> /\ user = orig /\ calls = 1
 
 \* _evaluate_model(x, params_dict): set_params(params_dict), then the derivative is read
-Eval0 == /\ pc = "f0" /\ M' = pd /\ log' = Append(log, <<0, pd>>) /\ pc' = "loop" /\ i' = 1 /\ UNCHANGED <<pd, orig, target>>
+Eval0 == /\ pc = "f0" /\ M' = pd /\ log' = Append(log, <<0, pd>>) /\ pc' = "loop" /\ i' = 1 /\ UNCHANGED <<pd, orig, target, user, calls>>
 Loop == /\ pc = "loop"
         /\ IF i > NState THEN pc' = "done" ELSE pc' = "plus"
-        /\ UNCHANGED <<M, pd, orig, target, i, log>>
+        /\ UNCHANGED <<M, pd, orig, target, i, log, user, calls>>
 Step(from, to, k) ==    \* params_dict[p] += k h; set_params; f = evaluate (set_params again)
         /\ pc = from /\ pd' = Shift(pd, target, k) /\ M' = Shift(pd, target, k)
-        /\ log' = Append(log, <<k, Shift(pd, target, k)>>) /\ pc' = to /\ UNCHANGED <<orig, target, i>>
+        /\ log' = Append(log, <<k, Shift(pd, target, k)>>) /\ pc' = to /\ UNCHANGED <<orig, target, i, user, calls>>
 Reset(from, to) ==      \* params_dict = dict(original); set_params
-        /\ pc = from /\ pd' = orig /\ M' = orig /\ pc' = to /\ UNCHANGED <<orig, target, i, log>>
+        /\ pc = from /\ pd' = orig /\ M' = orig /\ pc' = to /\ UNCHANGED <<orig, target, i, log, user, calls>>
 ResetLocal(from, to) == \* params_dict = dict(original)   (the model is written by the next statement)
-        /\ pc = from /\ pd' = orig /\ pc' = to /\ UNCHANGED <<M, orig, target, i, log>>
+        /\ pc = from /\ pd' = orig /\ pc' = to /\ UNCHANGED <<M, orig, target, i, log, user, calls>>
 Plus == Step("plus", "r1", 1)
 R1 == Reset("r1", "minus")
 Minus == Step("minus", "r2", -1)
@@ -41,13 +50,21 @@ Plus2 == Step("plus2", "r3", 2)
 R3 == ResetLocal("r3", "minus2")
 Minus2 == Step("minus2", "r4", -2)
 R4 == Reset("r4", "store")
-Store == /\ pc = "store" /\ i' = i + 1 /\ pc' = "loop" /\ UNCHANGED <<M, pd, orig, target, log>>
+Store == /\ pc = "store" /\ i' = i + 1 /\ pc' = "loop" /\ UNCHANGED <<M, pd, orig, target, log, user, calls>>
+\* between two calls: Model.set_params(new values), then the next entry-point call; the snapshot is taken again
+\* by the constructor of the fresh analysis object (or, in the deviation, kept from the first call)
+NextCall == /\ pc = "done" /\ calls < MaxCalls
+            /\ \E np \in [1..NPar -> PG], tq \in 1..NPar :
+                  /\ user' = np /\ M' = np /\ target' = tq
+                  /\ orig' = IF Design = "cached" THEN orig ELSE np
+                  /\ pd' = IF Design = "cached" THEN orig ELSE np
+            /\ calls' = calls + 1 /\ i' = 0 /\ pc' = "f0" /\ log' = << >>
 
-Next == Eval0 \/ Loop \/ Plus \/ R1 \/ Minus \/ R2 \/ Plus2 \/ R3 \/ Minus2 \/ R4 \/ Store
+Next == Eval0 \/ Loop \/ Plus \/ R1 \/ Minus \/ R2 \/ Plus2 \/ R3 \/ Minus2 \/ R4 \/ Store \/ NextCall
 Spec == Init /\ [][Next]_vars
 
-Restored == pc = "done" => M = orig
-RestoredBetweenStates == pc = "store" => (M = orig /\ pd = orig)
-EvalPoints == \A n \in 1..Len(log) : log[n][2] = Shift(orig, target, log[n][1])
+Restored == pc = "done" => M = user
+RestoredBetweenStates == pc = "store" => (M = user /\ pd = user)
+EvalPoints == \A n \in 1..Len(log) : log[n][2] = Shift(user, target, log[n][1])
 EvalCount == pc = "done" => Len(log) = 1 + NState * (IF Method = 1 THEN 4 ELSE 2)
 =============================================================================
